@@ -111,29 +111,40 @@ Theorem C06_shape_gap_fresh : forall ids,
 Proof. exact shape_gap_fresh. Qed.
 Print Assumptions C06_shape_gap_fresh.
 
-(** The scan raises (always ValueError) exactly when some @id passes str.isdigit and is
-    refused by int ... *)
+(** Since the repair (str.isdecimal filter): the scan raises (always ValueError) exactly
+    when some all-decimal @id has more than 4300 digits (the int digit limit of CPython
+    3.12) -- never because of a digit-like character. *)
 Theorem C06_shape_alloc_raises_iff : forall ids,
   (exists e, next_shape_id_max ids = Err e) <->
-  exists s, In s ids /\ py_isdigit s = true /\ py_int s = Err ValueErr.
-Proof. exact shape_alloc_raises_iff. Qed.
+  exists s, In s ids /\ py_isdecimal s = true /\ (max_str_digits < N.of_nat (length s))%N.
+Proof. exact shape_alloc_raises_len_iff. Qed.
 Print Assumptions C06_shape_alloc_raises_iff.
 
-(** ... which happens exactly for a digit-like character that is not a decimal digit
-    (superscripts, circled digits, ...) or more than 4300 digits. *)
+(** every population whose values have at most 4300 characters is served by both allocators *)
+Theorem C06_shape_alloc_total : forall ids,
+  (forall s, In s ids -> (N.of_nat (length s) <= max_str_digits)%N) ->
+  (exists r, next_shape_id_max ids = Ok r) /\ (exists g, next_shape_id_gap ids = Ok g).
+Proof. exact shape_alloc_total. Qed.
+Print Assumptions C06_shape_alloc_total.
+
+(** what isdecimal admits and int refuses: only the length limit *)
+Theorem C06_isdecimal_int_fails_iff : forall s, py_isdecimal s = true ->
+  (py_int s = Err ValueErr <-> (max_str_digits < N.of_nat (length s))%N).
+Proof. exact isdecimal_int_fails_iff. Qed.
+Print Assumptions C06_isdecimal_int_fails_iff.
+
+(** (about the builtins, kept: what isdigit admits and int refuses -- the former defect) *)
 Theorem C06_isdigit_int_fails_iff : forall s, py_isdigit s = true ->
   (py_int s = Err ValueErr <->
    (forallb is_dec s = false \/ (max_str_digits < N.of_nat (length s))%N)).
 Proof. exact isdigit_int_fails_iff. Qed.
 Print Assumptions C06_isdigit_int_fails_iff.
 
-(** FINDING (refuted totality): one pre-existing @id consisting of SUPERSCRIPT TWO makes
-    every add_* on that slide raise ValueError. *)
-Theorem C06_shape_nondecimal_crash :
-  next_shape_id_max [[49%N]; [178%N]] = Err ValueErr /\
-  next_shape_id_gap [[49%N]; [178%N]] = Err ValueErr.
-Proof. exact shape_nondecimal_crash. Qed.
-Print Assumptions C06_shape_nondecimal_crash.
+(** regression of the repaired defect: a pre-existing @id of SUPERSCRIPT TWO is ignored *)
+Example C06_shape_nondecimal_regression :
+  next_shape_id_max [[49%N]; [178%N]] = Ok 2 /\
+  next_shape_id_gap [[49%N]; [178%N]] = Ok 2.
+Proof. exact shape_nondecimal_regression. Qed.
 
 (** Any history of additions WITHOUT turbo (any mix of the two allocators, through any
     number of proxies, connectors referring to shapes), from any population whose numeric
@@ -180,6 +191,14 @@ Theorem C06_turbo_single_proxy_safe : forall k st m,
   Forall (fun o => exists n, o = Ok n) (snd (run_ops st (SetTurbo 0 true :: repeat (AddMax 0) k))).
 Proof. exact turbo_single_proxy_safe. Qed.
 Print Assumptions C06_turbo_single_proxy_safe.
+
+(** _next_ph_name: the unbounded loop stops within len(names)+1 rounds; the name is not in
+    use in the part and carries the first free number from id-1 upwards *)
+Theorem C06_ph_name_fresh : forall base n names,
+  exists r, next_ph_name base n names = Some r /\ ~ In r names /\
+    exists k, (n <= k)%N /\ r = ph_name base k /\ forall j, (n <= j < k)%N -> In (ph_name base j) names.
+Proof. exact ph_name_fresh. Qed.
+Print Assumptions C06_ph_name_fresh.
 
 Theorem C06_ctn_fresh : forall ids r, next_cTn_id ids = Ok r ->
   exists u, mapM py_int ids = Ok u /\ u <> [] /\ forall v, In v u -> v < r.
